@@ -73,6 +73,9 @@ def run_variant(case, order, ck, sp, style, fn_cache):
 
 
 def check_case(ctx, case, extra_orders):
+    from vf import obs
+
+    obs.reset_state()
     ref = gc.reference_verdict(case)
     if ref is None:
         ctx.classes["skipped-symbolic-unbound"] += 1
